@@ -272,7 +272,19 @@ def free_index_config():
         if not 0 <= n <= 40:
             return None
         return 'contracts.circuit_c:run_free_index', {'is_none': [ev(z3.Select(ex.g['a'], z3.IntVal(k))).as_long() == NONE_ID for k in range(n)]}
-    cfg = Config('any list', {'post': post, 'comp_hook': comp_hook}, setup, replay)
+    def enumerate_(ex, st, args, kwargs, node):
+        # the same function written as a loop (`for i, x in enumerate(self): if x is None: return i`): cut by the invariant below
+        from pyvc.engine import SymIter
+        if len(args) != 1 or not isinstance(args[0], ListObj) or kwargs:
+            raise NotInSubset('enumerate() of this value')
+        lst = args[0]
+        return SymIter(lst.length(st), lambda ex_, st_, k: (SInt(to_int(k)), Elem(z3.Select(lst.arr(st_), to_int(k)))))
+
+    def loop_inv(ex, st):
+        j = z3.Int('j')
+        yield 'no position passed so far holds None', SBool(z3.ForAll([j], z3.Implies(z3.And(0 <= j, j < to_int(st.env['__k0'])), ex.g['a'][j] != NONE_ID)))
+    cfg = Config('any list', {'post': post, 'comp_hook': comp_hook, 'loops': {0: {'inv': loop_inv, 'modifies': [], 'kinds': {'i': 'keep', 'x': 'keep'}}}}, setup, replay)
+    cfg.enumerate_ = enumerate_
     cfg.small = lambda ex: [ex.g['n'] <= 6]
     cfg.next_ = next_
     return cfg
@@ -292,7 +304,7 @@ def run_free_index(args):
 
 def targets_free_index():
     cfg = free_index_config()
-    return [Target('circuit', 'GrowingList.free_index', [cfg], prims=lambda globs: {next: cfg.next_}, instantiate='fallback',
+    return [Target('circuit', 'GrowingList.free_index', [cfg], prims=lambda globs: {next: cfg.next_, enumerate: cfg.enumerate_}, instantiate='fallback',
                    note='the generator expression is evaluated symbolically at an arbitrary position (filter and element); next() / enumerate() by their Python semantics')]
 
 
